@@ -37,7 +37,11 @@
 //	               uint8 (Sb; the whole type in one set), int16 (Sh), float32 (Sg): the round-4 instantiation
 //	               and capacity generators, batteries and pairs at 1..200 members, the multi-operand lines
 //
-// The cases are packed: one trace line holds 15..40 calls on fixed variables (the shrinker of
+//	largeSizes     thorough tier only: sets of exactly 2^15, 2^16-1, 2^16, 2^16+1 members (kinds Li Lx Ls Lt Lf),
+//	               every observer, the binary operations against a clone differing in one element, Pop,
+//	               Slice / Append; expected outputs from OCaml's own sets, not from the extracted model
+//
+// The cases are packed: one trace line holds 15..240 calls on fixed variables (the shrinker of
 // bin/check cuts a failing line down to the operations that matter).  In every Intersect call the
 // harness now also compares the operand list with what it handed in ("!" behind the result when the
 // callee reordered or overwrote the caller's slice).
@@ -554,6 +558,31 @@ func (g *gen) twoValues() {
 	}
 }
 
+// ---- exact large sizes (thorough tier; ROUND5_GUIDE.md class 5)
+
+// largeSizes: sets of 2^15, 2^16-1, 2^16, 2^16+1 members on five element types (kinds Li Lx Ls Lt Lf).
+// The driver does not replay these lines on the extracted model (quadratic per call: minutes per
+// line) but on OCaml's own sets; spec decides the property on them as on every line.
+func (g *gen) largeSizes() {
+	if !g.o.Thorough() {
+		return
+	}
+	S := strconv.Itoa
+	kinds := []string{"Li", "Ls", "Lx", "Lt", "Lf"}
+	for ni, n := range []int{1 << 15, 1<<16 - 1, 1 << 16, 1<<16 + 1} {
+		all := run1(0, n)
+		for ki := 0; ki < 2; ki++ {
+			kind := kinds[(ni+2*ki+int(g.o.Seed))%len(kinds)]
+			o := []string{"new:0:" + all, "len:0", "empty:0", "has:0:" + S(n-1), "has:0:" + S(n), "hasd:0:" + run1(-2, n+2), "hasall:0:" + list(all, "0", S(n-1)),
+				"hasall:0:" + list(run1(1, n+1)), "hasany:0:" + list(run1(n, 2*n), S(n-1)), "hasany:0:" + run1(n, n+3), "slice:0:?", "appendf:0:7,7:?", "append:0:n:?",
+				"clone:1:0", "eq:0:1", "sub:0:1", "meets:0:1", "rm:1:" + S(n-1), "add:1:" + S(n), "eq:0:1", "eq:1:0", "sub:0:1", "sub:1:0", "isect:2:0,1", "len:2", "isect:2:1,0,1",
+				"new:2:" + list(runStep(0, n, 2), S(n)), "sub:2:1", "sub:2:0", "isect:2:2,0,1", "len:2", "addall:2:0", "rmall:2:1", "len:2", "rmall:0:2", "rm:0:" + runStep(0, n, 2), "len:0", "add:0:" + list(all, "0"),
+				"eq:0:1", "rmall:0:0", "empty:0", "addall:0:1", "pop:0:?", "pop:0:?", "len:0", "clear:1", "pop:1:?", "len:1", "addall:1:1", "rm:0:" + list(all, S(n)), "empty:0", "slice:0:?"}
+			g.emit(fmt.Sprintf("%s 3 %s", kind, strings.Join(o, ";")), true, "round5", "r5-exact-large-size", "r5-large-"+S(n))
+		}
+	}
+}
+
 func pow3(i int) int {
 	p := 1
 	for ; i > 0; i-- {
@@ -571,4 +600,5 @@ func (g *gen) round5() {
 	g.multiTriples()
 	g.itemLists()
 	g.multiQuads()
+	g.largeSizes()
 }
